@@ -46,6 +46,7 @@ def run(ctx):
     ctx.floor('C18.4', 4, 'thread-pool fan-outs in the loaders')
     write_order(ctx)
     stated_count(ctx)
+    no_preallocation(ctx)
 
 
 def write_order(ctx):
@@ -149,3 +150,23 @@ def stated_count(ctx):
         else:
             ctx.fail('C18.3', g, enclosing_stmt(n), 'a footer offset is created outside get_header_dict (not covered by the count check)')
     ctx.floor('C18.3', 2)
+
+
+def no_preallocation(ctx):
+    """C18.5: a file never holds bytes that were not written as data: no truncate / fallocate / seek-past-end on an output
+    handle of a writer.  Pre-sizing the output turns "the conversion stopped here" into a file of the full length whose
+    unwritten tail is zeros, which the complete-read rule (C18.1) can no longer tell from data."""
+    P = ctx.P
+    ctx.rule('C18.5', 'writers never pre-size or extend their output (no truncate / fallocate): a partial file is a short file')
+    n = 0
+    for f in P.functions.values():
+        if f.module.name not in ('conversion', 'conversion_utils', 'cropping'):
+            continue
+        n += 1
+        for c in ast.walk(f.node):
+            if isinstance(c, ast.Call) and (
+                    (isinstance(c.func, ast.Attribute) and c.func.attr in ('truncate', 'posix_fallocate', 'ftruncate', 'fallocate')) or
+                    U(c.func) in ('os.truncate', 'os.ftruncate', 'os.posix_fallocate')):
+                ctx.fail('C18.5', f, enclosing_stmt(c), 'the writer sizes its output with `%s`: a conversion that stops early leaves a '
+                         'full-length file whose unwritten part reads back as zero samples instead of raising' % U(c)[:60], line=c.lineno)
+    ctx.ok('C18.5', None, 'writer modules', 'no truncate / fallocate call in %d writer functions' % n, nontrivial=False)
